@@ -119,6 +119,8 @@ def judge (o : Trace.Options) (j : Json) (raw : List SVal) (items : Bool) (implF
       else if o.enums_without_data_as_strings && dt0 == "Dictionary" && raw.any (fun x => x.kind == "newtype_variant" || hasKind "newtype_variant" x) then
         "data-less-newtype-variant-as-string"
       else if o.allow_to_string && o.string_dictionary_encoding && dt0 == "Dictionary" then "to-string-into-dictionary"
+      -- a unit struct is traced like `()` (null), but only `NullBuilder` implements `serialize_unit_struct`
+      else if dt0 != "Null" && raw.any (fun x => x.kind == "unit_struct" || hasKind "unit_struct" x) then "unit-struct-into-value"
       else "other"
     -- sample strings that only look like dates (exclusion 2) fail inside the temporal builders
     let dt := ctorOfAnn (annOf err "data_type")
